@@ -8,8 +8,11 @@ import (
 	"encoding/json"
 	"fmt"
 	"reflect"
+	"strconv"
 	"strings"
 	"time"
+	"unicode"
+	"unicode/utf8"
 
 	"github.com/tinode/chat/server/auth"
 	"pgregory.net/rapid"
@@ -287,8 +290,241 @@ func c20GenID(rt *rapid.T) (string, bool) {
 	}
 }
 
+// Strings. JSON quoting and Go/C string-literal quoting agree on letters, \n, \r, \t, \" and \\ and on
+// nothing else, so a converter that renders text by any other means than a JSON encoder shows on:
+// every control character 0x00-0x1f, DEL, C1 controls (U+0085), the line/paragraph separators, the byte
+// order mark, the ends of the BMP and of the surrogate gap, characters outside the BMP (emoji, the
+// non-printable U+E0001, the last code point U+10FFFF), text that merely looks like an escape, and - for
+// values of type 'any' only - bytes that are not UTF-8 at all.
+var c20PlainRunes = []rune("abcXYZ019 _-.:/\"'<&\\éжß東😀")
+
+var c20ExoticPieces = func() []string {
+	var out []string
+	for b := 0; b < 0x20; b++ {
+		out = append(out, string(rune(b)))
+	}
+	out = append(out, "\x7f", "\u0080", "\u0085", "\u009f", "\u00a0", "\u00ad", "\u2028", "\u2029", "\u200b", "\u200d", "\u202e", "\ufeff", "\ufffd", "\ufffe", "\uffff",
+		"\ud7ff", "\ue000", "\uf8fe", "😀", "\U0001F9D1\u200d\U0001F680", "\U00010000", "\U000e0001", "\U000e007f", "\U000f0000", "\U0010fffe", "\U0010ffff",
+		"\"", "\\", "'", "\\\"", "`", "/", "</script>", "<!--", "&amp;", "\r\n", "\x1b[0m",
+		// text that looks like an escape or a surrogate but is ordinary characters
+		`\u0007`, `\x7f`, `\U000e0001`, `\ud800`, `\ud83d\ude00`, `\a`, `\v`, `\0`, `%00`,
+		"a", "Z", "7", " ", "é", "東")
+	return out
+}()
+
+// Bytes that are not UTF-8 (surrogates spelled as three-byte sequences, overlong forms, truncated
+// sequences, values above U+10FFFF, stray continuation bytes). A case is JSON text and cannot hold them:
+// inside a case they are spelled c20RawMark + two hex digits per byte and c20ExpandRaw turns them into the
+// bytes when the message is built. The reference is the JSON rendering, where encoding/json shows each
+// offending byte as U+FFFD.
+const c20RawMark = '\uf8ff'
+
+var c20InvalidPieces = []string{"\xff", "\xfe", "\x80", "\xbf", "\xc0\x80", "\xc1\xbf", "\xe0\x80\x80", "\xed\xa0\x80", "\xed\xbf\xbf", "\xed\xa0\xbd\xed\xb8\x80",
+	"\xe2\x82", "\xf0\x9f\x98", "\xf4\x90\x80\x80", "\xf8\x88\x80\x80\x80", "\xc3"}
+
+func c20MarkRaw(b string) string {
+	var sb strings.Builder
+	for i := 0; i < len(b); i++ {
+		sb.WriteRune(c20RawMark)
+		fmt.Fprintf(&sb, "%02x", b[i])
+	}
+	return sb.String()
+}
+
+// c20ExpandRaw replaces every c20RawMark+hh by the byte hh.
+func c20ExpandRaw(s string) string {
+	if !strings.ContainsRune(s, c20RawMark) {
+		return s
+	}
+	const ml = len(string(c20RawMark))
+	var out []byte
+	for i := 0; i < len(s); {
+		if strings.HasPrefix(s[i:], string(c20RawMark)) && i+ml+2 <= len(s) {
+			if b, err := strconv.ParseUint(s[i+ml:i+ml+2], 16, 8); err == nil {
+				out = append(out, byte(b))
+				i += ml + 2
+				continue
+			}
+		}
+		out = append(out, s[i])
+		i++
+	}
+	return string(out)
+}
+
+// c20ExpandAny expands the raw-byte spelling in every string value of a decoded JSON value (keys are left alone).
+func c20ExpandAny(v any) any {
+	switch x := v.(type) {
+	case string:
+		return c20ExpandRaw(x)
+	case []any:
+		out := make([]any, len(x))
+		for i := range x {
+			out[i] = c20ExpandAny(x[i])
+		}
+		return out
+	case map[string]any:
+		out := make(map[string]any, len(x))
+		for k, e := range x {
+			out[k] = c20ExpandAny(e)
+		}
+		return out
+	case map[string]string:
+		out := make(map[string]string, len(x))
+		for k, e := range x {
+			out[k] = c20ExpandRaw(e)
+		}
+		return out
+	}
+	return v
+}
+
+// c20ExpandStruct applies c20ExpandAny to every member of type 'any' or map[string]any of a wire struct
+// (message content, public/private/trusted, head, params): only these can hold arbitrary bytes in the
+// server's memory; plain string members stay valid UTF-8 (see c20ValueNotes).
+func c20ExpandStruct(v reflect.Value) {
+	t := v.Type()
+	switch {
+	case t == c20TimeType, t == c20RawType:
+	case t.Kind() == reflect.Ptr:
+		if !v.IsNil() {
+			c20ExpandStruct(v.Elem())
+		}
+	case t.Kind() == reflect.Struct:
+		for i := 0; i < t.NumField(); i++ {
+			if _, _, ok := c20Field(t.Field(i)); ok && v.Field(i).CanSet() {
+				c20ExpandStruct(v.Field(i))
+			}
+		}
+	case t.Kind() == reflect.Slice && (t.Elem().Kind() == reflect.Struct || t.Elem().Kind() == reflect.Ptr):
+		for i := 0; i < v.Len(); i++ {
+			c20ExpandStruct(v.Index(i))
+		}
+	case t.Kind() == reflect.Interface:
+		if !v.IsNil() {
+			x := c20ExpandAny(v.Interface())
+			v.Set(reflect.ValueOf(&x).Elem())
+		}
+	case t.Kind() == reflect.Map && t.Elem().Kind() == reflect.Interface && t.Key().Kind() == reflect.String:
+		if v.Len() > 0 {
+			if m, ok := v.Interface().(map[string]any); ok {
+				v.Set(reflect.ValueOf(c20ExpandAny(m)))
+			}
+		}
+	}
+}
+
+// c20StrClasses labels what kinds of text a built message holds: in a value of type 'any' that is a
+// plain string ("anystr:"), nested inside such a value ("anynested:") and in plain string members ("str:").
+func c20StrClasses(v reflect.Value, out map[string]bool) {
+	label := func(prefix, s string) {
+		if !utf8.ValidString(s) {
+			out[prefix+"not-utf8"] = true
+		}
+		for _, r := range s {
+			switch {
+			case r == '\n' || r == '\r' || r == '\t':
+			case r < 0x20:
+				out[prefix+"control"] = true
+			case r == 0x7f:
+				out[prefix+"del"] = true
+			case r == 0x85 || r == 0x2028 || r == 0x2029 || r == 0xfeff:
+				out[prefix+"nel/ls/ps/bom"] = true
+			case r == '"' || r == '\\':
+				out[prefix+"quote/backslash"] = true
+			case r > 0xffff && !unicode.IsPrint(r):
+				out[prefix+"non-bmp-unprintable"] = true
+			case r > 0xffff:
+				out[prefix+"non-bmp"] = true
+			}
+		}
+	}
+	var nested func(x any)
+	nested = func(x any) {
+		switch e := x.(type) {
+		case string:
+			label("anynested:", e)
+		case []any:
+			for _, y := range e {
+				nested(y)
+			}
+		case map[string]any:
+			for _, y := range e {
+				nested(y)
+			}
+		case map[string]string:
+			for _, y := range e {
+				label("anystr:", y) // params of type map[string]string: each value is rendered on its own
+			}
+		}
+	}
+	t := v.Type()
+	switch {
+	case t == c20TimeType, t == c20RawType:
+	case t.Kind() == reflect.Ptr:
+		if !v.IsNil() {
+			c20StrClasses(v.Elem(), out)
+		}
+	case t.Kind() == reflect.Struct:
+		for i := 0; i < t.NumField(); i++ {
+			if _, _, ok := c20Field(t.Field(i)); ok {
+				c20StrClasses(v.Field(i), out)
+			}
+		}
+	case t.Kind() == reflect.Slice && (t.Elem().Kind() == reflect.Struct || t.Elem().Kind() == reflect.Ptr):
+		for i := 0; i < v.Len(); i++ {
+			c20StrClasses(v.Index(i), out)
+		}
+	case t.Kind() == reflect.Slice && t.Elem().Kind() == reflect.String:
+		for i := 0; i < v.Len(); i++ {
+			label("str:", v.Index(i).String())
+		}
+	case t.Kind() == reflect.Interface:
+		if !v.IsNil() {
+			if s, ok := v.Interface().(string); ok {
+				label("anystr:", s)
+			} else {
+				nested(v.Interface())
+			}
+		}
+	case t.Kind() == reflect.Map:
+		if m, ok := v.Interface().(map[string]any); ok {
+			nested(m)
+		}
+	case t.Kind() == reflect.String:
+		label("str:", v.String())
+	}
+}
+
+// c20GenString draws a valid UTF-8 string for a plain string member (also used inside 'any' values).
 func c20GenString(rt *rapid.T, path string) string {
-	return rapid.StringOfN(rapid.RuneFrom([]rune("abcXYZ019 _-.:/\"'<&\\éжß東😀")), 1, 8, 24).Draw(rt, "str")
+	if rapid.IntRange(0, 9).Draw(rt, "strk") < 6 {
+		return rapid.StringOfN(rapid.RuneFrom(c20PlainRunes), 1, 8, 24).Draw(rt, "str")
+	}
+	n := rapid.IntRange(1, 5).Draw(rt, "strn")
+	var sb strings.Builder
+	for i := 0; i < n; i++ {
+		sb.WriteString(rapid.SampledFrom(c20ExoticPieces).Draw(rt, "piece"))
+	}
+	return sb.String()
+}
+
+// c20GenAnyString draws a string that is (part of) a value of type 'any': as c20GenString, or with bytes
+// that are not UTF-8 (in the raw-byte spelling).
+func c20GenAnyString(rt *rapid.T) string {
+	if rapid.IntRange(0, 7).Draw(rt, "rawk") != 0 {
+		return c20GenString(rt, "")
+	}
+	n := rapid.IntRange(1, 4).Draw(rt, "rawn")
+	var sb strings.Builder
+	for i := 0; i < n; i++ {
+		if i%2 == 0 || rapid.Bool().Draw(rt, "rawb") {
+			sb.WriteString(c20MarkRaw(rapid.SampledFrom(c20InvalidPieces).Draw(rt, "rawpiece")))
+		} else {
+			sb.WriteString(rapid.SampledFrom(c20ExoticPieces).Draw(rt, "piece"))
+		}
+	}
+	return sb.String()
 }
 
 func c20GenJSON(rt *rapid.T, depth int) any {
@@ -298,7 +534,7 @@ func c20GenJSON(rt *rapid.T, depth int) any {
 	}
 	switch k {
 	case 0, 1:
-		return c20GenString(rt, "")
+		return c20GenAnyString(rt)
 	case 2:
 		return float64(rapid.IntRange(-1000000, 1000000).Draw(rt, "jnum"))
 	case 3:
@@ -325,7 +561,7 @@ func c20GenJSONMap(rt *rapid.T, depth int, nested bool) map[string]any {
 	n := rapid.IntRange(1, 3).Draw(rt, "mn")
 	m := map[string]any{}
 	for i := 0; i < n; i++ {
-		k := rapid.SampledFrom([]string{"a", "b", "fn", "mime", "x-y", "é", "seq", "who"}).Draw(rt, "mk")
+		k := rapid.SampledFrom([]string{"a", "b", "fn", "mime", "x-y", "é", "seq", "who", "k\a\x7f", "😀\U000e0001", "q\"\\"}).Draw(rt, "mk")
 		v := c20GenJSON(rt, depth)
 		if nested && rapid.IntRange(0, 9).Draw(rt, "mnull") == 0 {
 			v = nil // JSON null is fine inside a payload, only not as a direct member of head/params
@@ -416,7 +652,7 @@ func c20Gen(rt *rapid.T, v reflect.Value, path string, full bool, info *c20GenIn
 		}
 	case t == c20RawType:
 		if present("rp") {
-			s, _ := c20CanonJSON(c20GenJSON(rt, 1))
+			s, _ := c20CanonJSON(c20ExpandAny(c20GenJSON(rt, 1)))
 			if s == "" {
 				s = "null"
 			}
@@ -462,7 +698,7 @@ func c20Gen(rt *rapid.T, v reflect.Value, path string, full bool, info *c20GenIn
 			// ctrl.params: the server assigns map[string]any (most replies) or map[string]string (InfoUseOther, datamodel.go:1080)
 			if rapid.IntRange(0, 3).Draw(rt, "pstr") == 0 {
 				info.ParamsStr = true
-				v.Set(reflect.ValueOf(map[string]string{"topic": c20GenString(rt, path)}))
+				v.Set(reflect.ValueOf(map[string]string{"topic": c20GenAnyString(rt)}))
 			} else {
 				v.Set(reflect.ValueOf(c20GenJSONMap(rt, 1, false)))
 			}
